@@ -753,6 +753,10 @@ pub open spec fn eff_unread<R: Read>(de: Deserializer<R>) -> Seq<u8> {
     match de.elem_format_code { Some(c) => seq![c as u8] + de.reader.unread(), None => de.reader.unread() }
 }
 
+pub open spec fn valid_array8_header(u: Seq<u8>) -> bool {
+    u.len() >= 3 && u[0] == 0xe0 && (u[2] == 0 || (u[1] >= 2 && u.len() >= 4 && amqp_ctor(u[3])))
+}
+
 impl<R: Read> Deserializer<R> {
 //@@ fn file=serde_amqp/src/de.rs impl=`~de::Deserializer<'de>for&mutDeserializer<R>` name=deserialize_seq
 //@@ selfmut
@@ -779,6 +783,9 @@ impl<R: Read> Deserializer<R> {
             &&& h.count <= 65536 || u[0] == 0xc0                                                                 // [C04.compound.count-capped] 32-bit counts are capped before anything iterates or allocates by them
             &&& (h.kind == 0 ==> h.count <= h.len + 5)                                                           // [C04.array.count-bounded-by-size] an array cannot announce more elements than its size field covers
         }),
+        // completeness: a well-formed array8 header (AMQP 1.0 part 1, 1.6.24: size >= count octet + element constructor; any count 0..=255, since elements may be zero octets wide) is accepted
+        old(self).reader.reliable() && valid_array8_header(eff_unread(*old(self))) && eff_unread(*old(self))[2] <= eff_unread(*old(self))[1] ==> final(self).handed@ is Some,    // [C05.array8.every-valid-header-accepted] (count <= size field)
+        old(self).reader.reliable() && valid_array8_header(eff_unread(*old(self))) && eff_unread(*old(self))[2] > eff_unread(*old(self))[1] ==> final(self).handed@ is Some,     // [C05.array8.zero-width-elements-count-above-size] a count above the size field is valid when the elements are zero octets wide (null, true, false, uint0, ulong0, list0)
 //@@ end
 
 //@@ fn file=serde_amqp/src/de.rs impl=`~de::Deserializer<'de>for&mutDeserializer<R>` name=deserialize_tuple
